@@ -428,5 +428,57 @@ def truncate_sidechains(rng, lines, n=1, types=None):
     return [l for l in lines if not (is_atom(l) and res_key(l) in chosen and l[12:16].strip() in SIDE_CHAIN_ENDS[l[17:20]])]
 
 
+def cys_contact(rng, partner=("LYS", "NZ")):
+    """two short peptides from the library: one around a free cysteine, one around an ionizable residue, the second moved rigidly so that
+    the partner atom lies 3.2-3.6 A from the cysteine's SG and no other atoms of the two peptides come closer than 3 A; chains A and B.
+    None if no placement is found."""
+    lib = library()
+    chains = [lib[k] for k in sorted(lib) if k[1] != "het"]
+    cys = [(c, i) for c in chains for i, it in enumerate(c) if it[1][3] == "CYS" and 0 < i < len(c) - 1]
+    oth = [(c, i) for c in chains for i, it in enumerate(c) if it[1][3] == partner[0] and 0 < i < len(c) - 1]
+    # free cysteines only: no other SG within 3 A in the source chain
+    def sg(it):
+        return [coords(l) for l in it[2] if l[12:16].strip() == "SG"]
+    allsg = [x for c in chains for it in c if it[1][3] == "CYS" for x in sg(it)]
+    free = []
+    for c, i in cys:
+        s = sg(c[i])
+        if s and sum(1 for x in allsg if sum((p - q) ** 2 for p, q in zip(x, s[0])) < 9.0) == 1:
+            free.append((c, i))
+    if not free or not oth:
+        return None
+    for _ in range(200):
+        c1, i1 = free[rng.randrange(len(free))]
+        c2, i2 = oth[rng.randrange(len(oth))]
+        pa = relabel(flatten(c1[i1 - 1:i1 + 2]), chain="A")
+        pb = relabel(flatten(c2[i2 - 1:i2 + 2]), chain="B")
+        s = [coords(l) for l in pa if l[17:20] == "CYS" and l[12:16].strip() == "SG"][0]
+        n = [coords(l) for l in pb if l[17:20] == partner[0] and l[12:16].strip() == partner[1]]
+        if not n:
+            continue
+        while True:
+            v = [rng.uniform(-1, 1) for _ in range(3)]
+            r = sum(q * q for q in v) ** 0.5
+            if 0.2 < r <= 1.0:
+                break
+        d = rng.uniform(3.2, 3.6)
+        tgt = [s[k] + d * v[k] / r for k in range(3)]
+        sh = [round(tgt[k] - n[0][k], 3) for k in range(3)]
+        pb2 = translate(pb, *sh)
+        ok = True
+        for la in pa:
+            for lb in pb2:
+                dd = sum((x - y) ** 2 for x, y in zip(coords(la), coords(lb)))
+                special = la[12:16].strip() == "SG" and lb[12:16].strip() == partner[1] and lb[17:20] == partner[0]
+                if not special and dd < 9.0:
+                    ok = False
+                    break
+            if not ok:
+                break
+        if ok:
+            return pa + ["TER   \n"] + pb2 + ["TER   \n"]
+    return None
+
+
 def text(lines):
     return "".join(lines)
